@@ -2,7 +2,7 @@
 and the block constructors (sparse, spdiag), called with operands of every kind, typecode and shape and with every integer keyword, in a
 crash-safe worker whose allocator puts a guard page after every buffer.  A call either raises or returns; accepted calls with sparse operands
 are repeated on the dense images and must give the same numbers."""
-import os, random
+import os, random, json
 import vlib
 from corr.c19_lapack import Worker, WIDE
 
@@ -95,9 +95,11 @@ def base_probes(ctx, rng, gb, prop='C19'):
     w = Worker(gb)
     stat = {}; per = {}
     cid = 7 * 10**6
+    corpus = [dict(c, id=8 * 10**6 + i, valid=True) for i, c in enumerate(json.load(open(os.path.join(vlib.VERIF, 'tools', 'corr', 'c19_corpus.json')))['base'])]
     try:
-        for it in range(n):
-            case = gen_case(rng, cid); cid += 1
+        for it in range(n + len(corpus)):
+            if it < len(corpus): case = corpus[it]
+            else: case = gen_case(rng, cid); cid += 1
             res = w.run(case)
             if res.startswith('crash') or res == 'worker-died':
                 w2 = Worker(gb, WIDE); res2 = w2.run(dict(case)); w2.close()
@@ -116,3 +118,85 @@ def base_probes(ctx, rng, gb, prop='C19'):
         w.close()
     ctx.cov['base_probes'] = dict(stat, calls=n, accepted_per_routine=per)
     return n
+
+
+# ------------------------------------------------------------------------------------------------ constructors and arithmetic
+def N(v): return {'t': 'num', 'v': v}
+def rnum(rng): return N(rng.choice([0, 1, -2, 3, 2.5, -1.0, [1.0, -2.0], 7, 2**31, -2**31 - 1, 2**63 - 1]))
+def rmat(rng, tcs='idz'):
+    return {'t': 'mat', 'v': [rng.choice(tcs), rng.randint(0, 4), rng.randint(0, 4)]}
+def rsp(rng): return {'t': 'sp', 'v': [rng.choice('dz'), rng.randint(0, 4), rng.randint(0, 4), rng.randint(0, 5)]}
+def rsize(rng):
+    return {'t': 'tuple', 'v': [N(rng.choice([-1, 0, 1, 2, 3, 4, 6, 2**31, 2**62])), N(rng.choice([-1, 0, 1, 2, 3, 2**31, 2**62]))]} if rng.random() < 0.9 else \
+           {'t': 'tuple', 'v': [N(2)]}
+def rlist(rng, depth=1):
+    k = rng.randint(0, 4)
+    if depth and rng.random() < 0.4: return {'t': 'list', 'v': [rlist(rng, 0) for _ in range(k)]}
+    return {'t': 'list', 'v': [rnum(rng) if rng.random() < 0.9 else rng.choice([{'t': 'none'}, {'t': 'str', 'v': 'a'}, rmat(rng)]) for _ in range(k)]}
+def rindex(rng, hi):
+    return {'t': 'list', 'v': [N(rng.choice([-hi - 1, -1, 0, 1, hi - 1, hi, hi + 3, 2**31, 2**40]) if rng.random() < 0.25 else rng.randint(0, max(hi - 1, 0))) for _ in range(rng.randint(0, 5))]}
+
+def gen_ctor(rng, cid):
+    r = rng.choice(['matrix', 'matrix', 'spmatrix', 'spmatrix', 'sparse', 'spdiag', 'add', 'sub', 'mul', 'div', 'pow', 'iadd', 'imul', 'neg', 'abs', 'trans',
+                    'ctrans', 'size', 'V', 'real', 'imag'])
+    pos, kw = [], {}
+    anym = lambda: rng.choice([rmat(rng), rsp(rng), rnum(rng)]) if rng.random() < 0.9 else rlist(rng)
+    if r == 'matrix':
+        src = rng.choice([rnum(rng), rlist(rng), rmat(rng), rsp(rng), {'t': 'range', 'v': rng.randint(0, 6)}, {'t': 'bytes', 'v': [1, 2, 3, 4, 5, 6, 7, 8]},
+                          {'t': 'bytearray', 'v': [0] * rng.choice([0, 7, 8, 16])}, {'t': 'tuple', 'v': [rnum(rng) for _ in range(rng.randint(0, 3))]}])
+        pos = [src]
+        if rng.random() < 0.6: pos.append(rsize(rng))
+        if rng.random() < 0.5: kw['tc'] = {'t': 'str', 'v': rng.choice(['i', 'd', 'z', 'x', ''])}
+    elif r == 'spmatrix':
+        m, n = rng.randint(0, 4), rng.randint(0, 4)
+        k = rng.randint(0, 5)
+        V = rng.choice([rnum(rng), {'t': 'list', 'v': [rnum(rng) for _ in range(k)]}, rmat(rng), rsp(rng)])
+        I, J = rindex(rng, m), rindex(rng, n)
+        if rng.random() < 0.6:
+            I = {'t': 'list', 'v': [N(rng.randint(0, max(m - 1, 0))) for _ in range(k)]}; J = {'t': 'list', 'v': [N(rng.randint(0, max(n - 1, 0))) for _ in range(k)]}
+        pos = [V, I, J]
+        if rng.random() < 0.7: pos.append({'t': 'tuple', 'v': [N(m + rng.choice([0, 0, 0, -1, 1])), N(n + rng.choice([0, 0, -1, 1]))]})
+        if rng.random() < 0.4: kw['tc'] = {'t': 'str', 'v': rng.choice(['d', 'z', 'i', 'q'])}
+    elif r == 'sparse':
+        def block(): return rng.choice([rmat(rng, 'dz'), rsp(rng), rnum(rng)])
+        if rng.random() < 0.4: pos = [block()]
+        else: pos = [{'t': 'list', 'v': [({'t': 'list', 'v': [block() for _ in range(rng.randint(0, 3))]} if rng.random() < 0.7 else block()) for _ in range(rng.randint(0, 3))]}]
+        if rng.random() < 0.3: kw['tc'] = {'t': 'str', 'v': rng.choice(['d', 'z', 'i'])}
+    elif r == 'spdiag':
+        pos = [rng.choice([{'t': 'list', 'v': [rng.choice([rmat(rng, 'dz'), rsp(rng), rnum(rng)]) for _ in range(rng.randint(0, 4))]}, rmat(rng), rsp(rng), rnum(rng)])]
+    elif r in ('add', 'sub', 'mul', 'div', 'pow', 'iadd', 'imul'): pos = [rng.choice([rmat(rng), rsp(rng)]), anym()]
+    elif r in ('neg', 'abs', 'trans', 'ctrans', 'real', 'imag'): pos = [rng.choice([rmat(rng), rsp(rng)])]
+    elif r == 'size': pos = [rng.choice([rmat(rng), rsp(rng)]), {'t': 'tuple', 'v': [N(rng.choice([0, 1, 2, 3, 4, 6, 8, 12, -1])), N(rng.choice([0, 1, 2, 3, 4, 6, -2]))]}]
+    elif r == 'V': pos = [rsp(rng), rng.choice([rmat(rng), rnum(rng), rlist(rng, 0)])]
+    return {'kind': 'ctor', 'id': cid, 'routine': r, 'pos': pos, 'kw': kw}
+
+def ctor_probes(ctx, rng, gb, prop='C19'):
+    """constructors (matrix, spmatrix, sparse, spdiag), arithmetic between dense / sparse / number operands of any shape, transposes, size and V
+    assignment in the guard-page build: a call raises or returns (sparse results have valid compressed-column arrays)"""
+    n = 3000 if ctx.quick() else 40000
+    w = Worker(gb); stat = {}; cid = 9 * 10**6
+    corpus = [dict(c, id=8 * 10**6 + 500 + i) for i, c in enumerate(json.load(open(os.path.join(vlib.VERIF, 'tools', 'corr', 'c19_corpus.json')))['ctor'])]
+    try:
+        for it in range(n + len(corpus)):
+            if it < len(corpus): case = corpus[it]
+            else: case = gen_ctor(rng, cid); cid += 1
+            res = w.run(case)
+            if res.startswith('crash') or res == 'worker-died':
+                w2 = Worker(gb, WIDE); res2 = w2.run(dict(case)); w2.close()
+                if res2.startswith('crash') or res2 == 'worker-died':
+                    if prop == 'C19': ctx.violation('c19:constructor-or-arithmetic-faults:' + case['routine'], '%s with %s faults (%s)' % (case['routine'], json_short(case), res2), case)
+                    continue
+                res = res2
+            if res == 'ccs-invalid' and prop == 'C16':
+                ctx.violation('c16:ccs-invalid:' + case['routine'], '%s with %s returns a sparse matrix with invalid compressed-column arrays' % (case['routine'], json_short(case)), case)
+            key = 'ok' if res == 'ok' else res if res == 'ccs-invalid' else 'exception'
+            stat[key] = stat.get(key, 0) + 1
+            if res == 'ok': stat['ok:' + case['routine']] = stat.get('ok:' + case['routine'], 0) + 1
+    finally:
+        w.close()
+    ctx.cov['constructor_probes'] = dict(stat, calls=n)
+    return n
+
+def json_short(case):
+    import json
+    return json.dumps({'pos': case['pos'], 'kw': case.get('kw', {})})[:400]
